@@ -31,7 +31,7 @@ import (
 )
 
 const pgsimAssumption = "pgsim: hand-written in-process model of the Postgres subset the ledger uses (READ COMMITTED MVCC, row/advisory locks, triggers, PL/pgSQL); it cannot be validated against a real server in this sandbox"
-const httpAssumption = "HTTP layer: requests are served in-process by the real api.NewRouter (all middlewares, no authentication, default router options) through net/http/httptest; no TCP socket, no net/http server-side parsing of the request line/headers"
+const httpAssumption = "HTTP layer: requests are served in-process by the real api.NewRouter (all middlewares, no authentication, the router options of internal/api/module.go: default bulk size, default bulker factory, exporters disabled) through net/http/httptest; no TCP socket, no net/http server-side parsing of the request line/headers"
 
 // KV is one query-string pair (ordered: replays must be byte-identical).
 type KV struct {
